@@ -395,7 +395,7 @@ Definition gap_result (c : cls) (e : entry) (m : mal) : result :=
 (* crash points inside guarded triples (a variant of the malformation escapes the assertion) *)
 Definition crash_gap_witnesses : list (cls * entry * mal * input) :=
   flat_map (fun c =>
-     (c, EFit, MXNotFrame, set_x_none (valid_input c false true)) ::
-     (if cls_eqb c KContinuous then [] else
-        [(c, EFit, MIndexMismatch, set_index_mismatch false (valid_input c false true))])) all_cls
+     if cls_eqb c KContinuous then [] else
+       [(c, EFit, MXNotFrame, set_x_none (valid_input c false true));
+        (c, EFit, MIndexMismatch, set_index_mismatch false (valid_input c false true))]) all_cls
   ++ [(KContinuousCarver, EFit, MYStr, set_y_mixed_str (valid_input KContinuousCarver false true))].
